@@ -47,6 +47,7 @@ type c15El struct {
 	W       string         `json:"w"`
 	Items   []c15Item      `json:"items"`
 	Uniform bool           `json:"uniform"`
+	Nav     bool           `json:"nav"` // the element sits inside a <nav> block (history documents)
 }
 
 type c15GridCell struct {
@@ -444,6 +445,10 @@ func c15(mode, in, out string) error {
 	switch mode {
 	case "replay":
 		return runCases(in, out, c15ReplayCase)
+	case "history":
+		return runCases(in, out, c15HistoryCase)
+	case "histrecord":
+		return c15HistRecord(in, out)
 	case "record":
 		return c15Record(in, out)
 	}
